@@ -48,6 +48,7 @@ def run(ck, fb):
     r02r(ck, fb)
     r02s(ck, fb)
     ck.borrow('rules.c03', {'R03b': 'R02j', 'R03g': 'R02k', 'R03i': 'R02l'}, 'a truncation that leaves wrong cursors / keeps the suffix breaks the reopened log')
+    ck.borrow('rules.c20', {'R20h': 'R02t', 'R20j': 'R02u'}, 'a log entry that crosses a read-chunk boundary is returned unchanged only if the unread bytes are carried to the front completely before the next chunk is appended')
 
 
 def r02a(ck, fb):
